@@ -743,11 +743,11 @@ HOP = ["tt:set x=2", "tt:push 2", "tt:pop", "tt:release", "tt:append", "tt:del x
        "ex:get x", "set x=2", "push 2", "pop"]
 HOP6 = ["tt:set x=2", "tt:pop", "tt:release", "ex:set x=2", "set x=2", "pop"]
 # round 2 (seed C18-2b): every binding door also holds FALSY objects - bound to 0 / "" / False / None is not unbound
-FALSY = ["set x=0", "set x=e", "set x=N", "push 0", "push e", "push F", "cv=0", "cv=e", "del x", "pop", "proxy x",
+FALSY = ["set x=0", "set x=e", "set x=N", "push 0", "push e", "push F", "cv=0", "cv=e", "cv=N", "del x", "pop", "proxy x",
          "proxy top", "proxy cv", "bat x", "bat top", "get x", "top"]
-FALSY10 = ["set x=0", "set x=N", "push 0", "push e", "cv=0", "pop", "del x", "proxy x", "proxy top", "proxy cv"]
-FALSY6 = ["set x=0", "push 0", "push e", "cv=0", "pop", "proxy top"]
-FALSY_LINE = ["set x=0", "push 0", "push F", "cv=0", "pop", "rd top", "rd x", "rd cv"]
+FALSY10 = ["set x=0", "set x=N", "push 0", "push e", "cv=0", "cv=N", "pop", "proxy x", "proxy top", "proxy cv"]
+FALSY6 = ["set x=0", "push 0", "push e", "cv=0", "cv=N", "pop", "proxy top"]
+FALSY_LINE = ["set x=0", "push 0", "push F", "cv=0", "cv=N", "pop", "rd top", "rd x", "rd cv"]
 # wave 4 (seed C18-4b): objects WITH attributes on the stack, a named stack proxy, attribute rebinding on the top
 # object, and push / pop / push of fresh same-type objects that nobody keeps alive (address reuse may happen)
 BOX = ["pushbox 1", "pushbox 2", "rebind 3", "rebind 4", "pop", "push 2", "release", "proxy v", "proxy top"]
@@ -794,7 +794,7 @@ QUICK = [
     ("S3", "core4", 1, ("used",), ("thr", "aio")),
     ("S2", "writes", 2, ("used",), ("aio",)),
     ("PC", "core6", 2, ("empty", "used"), ("aio",)),
-    ("S2", "none", 2, ("used", "falsy"), ("ctx",)),
+    ("S2", "none", 2, ("used",), ("ctx",)),
     ("PC", "none5", 2, ("used",), ("ctx",)),
     ("S2", "none5", 2, ("used",), ("thr", "aio")),
     ("S2", "iter6", 2, ("empty", "used"), ("ctx",)),
@@ -1274,6 +1274,34 @@ def run_static(R):
     expect("bound-all-forms", got == tuple((5, True, "5") for _ in forms), repr(got))
     got = contextvars.Context().run(lambda: tuple(rd(p)[0] for p in forms.values()))
     expect("unbound-again-elsewhere", got == tuple("RE" for _ in forms), repr(got))
+    # wave 6 (seed C18-6b): a var bound to None / 0 is BOUND; a var with a default resolves to the default where
+    # it was never set; a child overriding an inherited binding with None; reset through the token
+    vd = contextvars.ContextVar("c18.static.default", default=7)
+    pd, pdn = LocalProxy(vd), LocalProxy(vd, "real")
+    got = contextvars.Context().run(lambda: (rd(pd), rd(pdn)))
+    expect("var-default", got == ((7, True, "7"), (7, True, "7")), repr(got))
+    vn = contextvars.ContextVar("c18.static.none")
+    pn = LocalProxy(vn, unbound_message="m1")
+
+    def none_story():
+        out = [rd(pn)]
+        vn.set(3)
+        out.append(rd(pn))
+        child = contextvars.copy_context()
+        out.append(child.run(lambda: (vn.set(None), rd(pn))[1]))     # the child overrides the inherited 3 with None
+        out.append(rd(pn))                                           # the parent still sees 3
+        tok = vn.set(0)
+        out.append(rd(pn))
+        vn.reset(tok)
+        out.append(rd(pn))
+        vd.set(None)
+        out.append(rd(pd))
+        return out
+    got = contextvars.Context().run(none_story)
+    expect("var-bound-to-None", got[2] == (None, False, "None") and got[3] == (3, True, "3")
+           and got[6] == (None, False, "None"), repr(got))
+    expect("var-token-reset", got[0] == ("RE", False, FALLBACK_REPR, "m1") and got[4] == (0, False, "0")
+           and got[5] == (3, True, "3"), repr(got))
     # accessed on the class a lookup is the descriptor itself, and the class keeps its docstring
     expect("class-level-descriptor", type(LocalProxy.__repr__).__name__ == "_ProxyLookup")
     expect("class-doc", isinstance(LocalProxy.__doc__, str) and "proxy" in LocalProxy.__doc__.lower())
@@ -1348,6 +1376,7 @@ def finalize(R, tier):
         need |= {"out:get x:val", "out:get x:AE", "out:top:val", "out:top:None", "out:proxy cv:unbound",
                  "out:bat cv:bound", "out:bat cv:unbound", "out:tt:append:RE", "out:tt:del x:AE",
                  "out:ex:get x:AE", "out:tt:del x:None", "out:tt:append:None"}
+    need |= {"op:cv=N", "static:var-default", "static:var-bound-to-None", "static:var-token-reset"}
     need |= {"op:push N", "out:proxy top:unbound", "out:pop:None"}
     need |= {"op:iter-open", "op:iter-drain", "out:iter-drain:val", "out:iter-drain:NOTOPEN"}
     need |= {"op:pushbox 1", "op:rebind 3", "out:proxy v:bound", "out:proxy v:unbound", "out:rebind 3:None",
